@@ -496,7 +496,7 @@ def jobs(tier, seed):
       js.append(Job('hist:11:shard' + '.'.join(map(str, vals)), job_large,
                     {'pattern': [True, True], 'history': True,
                      'fix': {'L1_r': vals[0], 'n_0_r': vals[1]}}))
-  cases = [[8], [4, 12], [16, 4, 20], [4, None, 8], [0], [4, 0], [1],
+  cases = [[('same', 8), 4, ('same', 8)], [('same', 3), ('same', 3)], [8], [4, 12], [16, 4, 20], [4, None, 8], [0], [4, 0], [1],
            [1, 8], [3, 1, 5], [2, 17], ['U16', 8], [4, 'U3', 8, 12]]
   fixtures = [('single_fc_bias.tflite', None), ('conv_fc_mnist.tflite', None),
               ('two_signatures.tflite', None)]
@@ -541,6 +541,15 @@ def replay(c):
     lens.append(int(d.get(f'n_{i}_q', 0)) * 16 + int(d.get(f'n_{i}_r', 0))
                 if has else None)
   from symx import skeletons
+  same = [k for k, v in d.items() if k.startswith('same_content_') and v]
+  if same:
+    # the witness makes some constants hold identical bytes
+    tied = set()
+    for k in same:
+      parts = k[len('same_content_'):].split('_buf_')
+      tied.update(int(x.replace('buf_', '')) for x in parts)
+    lens = [('same', l) if (i in tied and l) else l
+            for i, l in enumerate(lens)]
   mb = skeletons.const_buffers_model(lens, raw=True)
   probs = compare_large_small(mb)
   wc = ('a present-but-empty buffer changes the flatbuffer length between '
